@@ -1,6 +1,7 @@
 package main
 
 import (
+	"reflect"
 	"fmt"
 	"strings"
 
@@ -43,6 +44,14 @@ func suiteAlias(r *Rng, n int, thorough bool, o *Out) {
 		} else {
 			res = newSoft(typ)
 			o.stat("kind.soft")
+			if r.chance(1, 3) {
+				// a soft resource over a type that was built from a struct (it carries a
+				// NewFunc): Copy and New still give soft resources with this resource's fields
+				if bt, err := jsonapi.BuildType(reflect.New(structTypeFor(typ)).Interface()); err == nil && sxType(stripNewFunc(bt)) == sxType(typ) {
+					res = &jsonapi.SoftResource{Type: &bt}
+					o.stat("kind.soft-with-newfunc")
+				}
+			}
 		}
 		vals := genFieldVals(r, typ)
 		for k, rel := range typ.Rels {
